@@ -125,7 +125,7 @@ def main():
         'not_applicable': [{'property_id': p, 'reason': 'check not built yet (work in progress; see DESIGN.md section 3)'}
                            for p in ALL if p not in CHECKS],
         'notes': 'See DESIGN.md (sections 9-11 describe what was built, the triage of the unchanged tree and the detection results). '
-                 'Known findings: known_findings.json + known/*.keys (one open finding, F01; 27 repaired defects listed as fixed). '
+                 'Known findings: known_findings.json (no open finding; every genuine defect found was repaired and is listed as fixed; known/*.keys would hold the exact failing inputs of an open finding). '
                  'Seeded changes and results: seeded/ (tools/seeded_matrix.py).  No source hook exists in /repo.',
     }
     with open(os.path.join(HERE, 'MANIFEST.json'), 'w') as fh:
